@@ -342,6 +342,21 @@ pub fn scenario(seed: u64, opts: &Opts) -> Made {
                     w.run_until_cb(until, &mut cb);
                 }
                 send(&mut w, &s2.announce(), &mut rng);
+                // sometimes the service that moved to another port also withdraws its old SRV record (a goodbye for
+                // that one record, at once or within the second): the last thing heard about the instance's SRV
+                // records is then the end of the old one, and the new one is what counts
+                let bye_old = !echo && !toggled_back && s2.port != s.port && rng.chance(1, 2);
+                if bye_old {
+                    let d = *rng.pick(&[0u64, 0, 30, 400, 900]);
+                    if d > 0 {
+                        let mut cb = |w: &mut World| resp.react(w, h);
+                        let until = w.now() + d;
+                        w.run_until_cb(until, &mut cb);
+                    }
+                    let mut m = Message::response();
+                    m.answers = s.goodbye().answers.into_iter().filter(|r| r.rtype == wire::T_SRV).collect();
+                    send(&mut w, &m, &mut rng);
+                }
                 if echo {
                     let mut e = s2.clone();
                     e.port = s.port;
@@ -357,7 +372,7 @@ pub fn scenario(seed: u64, opts: &Opts) -> Made {
                     " @{t}:{}update{}{}{i}",
                     if quick { "quick-" } else { "" },
                     if toggled_back { "-back" } else { "" },
-                    if echo { "-and-back-within-a-second" } else { "" }
+                    if echo { "-and-back-within-a-second" } else if bye_old { "-old-srv-withdrawn" } else { "" }
                 ));
             }
             5 | 6 => {
